@@ -26,6 +26,8 @@ type Case struct {
 	Mode    string   `json:"mode"`
 	Proto   string   `json:"proto"`
 	Packets [][]byte `json:"packets"`
+	// NumExtra: the collector's NumExtraElements setting (spare capacity of decoded element lists)
+	NumExtra int `json:"num_extra,omitempty"`
 }
 
 // Stats is what a run observed (for the evidence only).
@@ -63,6 +65,8 @@ func newCol(c Case) *glue.Col {
 	if c.Proto == "udp" {
 		clk = glue.FrozenClock{T: time.Unix(1700000000, 0)}
 	}
+	glue.NumExtraElements = c.NumExtra
+	defer func() { glue.NumExtraElements = 0 }()
 	return glue.NewCol(c.Proto, collector.DecodingMode(c.Mode), clk, 1800)
 }
 
@@ -301,6 +305,7 @@ func genCase(t *rapid.T) Case {
 		Mode:  rapid.SampledFrom([]string{"Strict", "LenientKeepUnknown", "LenientDropUnknown"}).Draw(t, "mode"),
 		Proto: rapid.SampledFrom([]string{"tcp", "udp"}).Draw(t, "proto"),
 	}
+	c.NumExtra = rapid.SampledFrom([]int{0, 0, 1, 3, 16}).Draw(t, "num_extra")
 	var tpls []tplInfo
 	n := rapid.IntRange(1, 6).Draw(t, "npkt")
 	for i := 0; i < n; i++ {
